@@ -20,10 +20,18 @@ class CapturedPath:
     return self._compute_captured_path()[0]
 
   def _compute_captured_path(self):
-    path = []
-    prev_edge = False
-    for item in self.items:
-      path, prev_edge = self._push_item_on_se_path(path, prev_edge, item)
+    if self.__dict__.get("_computing_captured_path", False):
+      raise gfapy.RuntimeError(
+        "Captured path cannot be computed; the group contains itself\n"+
+        "Line: {}".format(self))
+    self.__dict__["_computing_captured_path"] = True
+    try:
+      path = []
+      prev_edge = False
+      for item in self.items:
+        path, prev_edge = self._push_item_on_se_path(path, prev_edge, item)
+    finally:
+      self.__dict__["_computing_captured_path"] = False
     return path, prev_edge
 
   def _push_item_on_se_path(self, path, prev_edge, item):
